@@ -50,7 +50,9 @@ def expected_mime(v):
 
 def period():
     """(milliseconds int part, microseconds) -> total microseconds; never an exact half millisecond"""
-    ms = st.one_of(st.sampled_from([0, 1, 2, 100, 499, 500, 999, 1000, 1500, 2500, 60000, 600000, 3600000]), st.integers(0, 2000000))
+    ms = st.one_of(st.sampled_from([0, 1, 2, 100, 499, 500, 999, 1000, 1500, 2500, 60000, 600000, 3600000]), st.integers(0, 2000000),
+                   # hours and days, up to the 31-bit maximum of the wire field
+                   st.sampled_from([86399999, 86400000, 86400001, 172803250, 0x7FFFFFFF - 1]), st.integers(2000000, 0x7FFFFFFF - 1))
     us = st.sampled_from([0, 0, 0, 1, 100, 250, 499, 501, 750, 999])
     return st.tuples(ms, us).map(lambda t: t[0] * 1000 + t[1]).filter(lambda x: x >= 1000)
 
@@ -178,7 +180,8 @@ def server_cases(draw):
     mm = draw(st.one_of(st.sampled_from([b'application/json', b'text/plain', b'', b'x' * 127]), st.binary(max_size=100)))
     dm = draw(st.one_of(st.sampled_from([b'application/json', b'a/b', b'']), st.binary(max_size=100)))
     return {'client': False, 'resume': draw(st.sampled_from([False, False, False, True])), 'lease': draw(st.booleans()),
-            'publisher': draw(st.booleans()), 'raises': draw(st.sampled_from([False, False, True])),
+            'publisher': draw(st.booleans()), 'raises': draw(st.sampled_from([False, False, False, 'app', 'value_error', 'protocol_rejected', 'protocol_app',
+                                                                'protocol_invalid', 'protocol_setup', 'stream_in_use'])),
             'metadata_mime': mm, 'data_mime': dm, 'data': draw(st.binary(max_size=50)),
             'metadata': draw(st.one_of(st.none(), st.binary(min_size=1, max_size=30))),
             'token': draw(st.binary(max_size=16)), 'then_resume': draw(st.booleans()), 'msg': draw(st.booleans()),
@@ -191,7 +194,7 @@ def judge_server(case):
     if case['publisher']:
         cfg['lease'] = {'queue': 0}
     if case['raises']:
-        cfg['setup_raises'] = True
+        cfg['setup_raises'] = case['raises']
     v = {'type': 'SETUP', 'sid': 0, 'keepalive': case['keepalive'], 'lifetime': case['lifetime'], 'resume': case['resume'],
          'lease': case['lease'], 'metadata_mime': case['metadata_mime'], 'data_mime': case['data_mime'], 'data': case['data'],
          'metadata': case['metadata'], 'token': case['token']}
